@@ -38,9 +38,9 @@ Proof. destruct s. reflexivity. Qed.
 Lemma xok_XP t s : xok (XP t s) <-> xok (p_cur s).
 Proof. destruct s. reflexivity. Qed.
 
-Variables (look : N -> list entry) (fuel : nat).
+Variable fuel : nat.
 
-Lemma xcur1_closed child : closed child xok -> closed (xcur1 look fuel child) xok.
+Lemma xcur1_closed child : closed child xok -> closed (xcur1 fuel child) xok.
 Proof.
   intros Hc o u H. destruct o; cbn [step xcur1 c_first c_last c_seek c_prev c_next];
   (destruct u as [m p|f mk s|s|s|lo hi s|t s]; cbn [xstep1];
@@ -54,7 +54,7 @@ Qed.
 Lemma xstuck_closed : closed xstuck xok.
 Proof. intros o u H. destruct o; exact H. Qed.
 
-Lemma xcur_closed d : closed (xcur look fuel d) xok.
+Lemma xcur_closed d : closed (xcur fuel d) xok.
 Proof. induction d as [|d IH]; cbn [xcur]; apply xcur1_closed; [apply xstuck_closed|exact IH]. Qed.
 
 (* what the predicate gives for the objects a state names *)
@@ -93,18 +93,18 @@ Qed.
 
 (* the constructors *)
 Lemma xok_scan_new lo hi t mems v :
-  (forall m, In m mems -> PM m) -> (forall f, In f (concat v) -> PF (f_id f)) ->
-  xok (scan_new look fuel lo hi t mems v).
+  (forall m, In m mems -> PM (fst m)) -> (forall f, In f (concat v) -> PF (f_id f)) ->
+  xok (scan_new fuel lo hi t mems v).
 Proof.
   intros HM HF. unfold scan_new.
-  assert (forall d, closed (xcur look fuel d) xok) as Hcl by apply xcur_closed.
-  apply xok_XB. apply (pres_b_new (xcur look fuel 4) xok (Hcl 4) lo hi).
-  apply xok_XP. apply (pres_p_new (xcur look fuel 3) xok (Hcl 3)).
-  apply xok_XM. apply (pres_m_new (xcur look fuel 2) xok (Hcl 2)).
+  assert (forall d, closed (xcur fuel d) xok) as Hcl by apply xcur_closed.
+  apply xok_XB. apply (pres_b_new (xcur fuel 4) xok (Hcl 4) lo hi).
+  apply xok_XP. apply (pres_p_new (xcur fuel 3) xok (Hcl 3)).
+  apply xok_XM. apply (pres_m_new (xcur fuel 2) xok (Hcl 2)).
   apply Forall_app. split.
   - apply Forall_forall. intros k Hk. apply in_map_iff in Hk. destruct Hk as [m [<- Hm]].
-    unfold mem_leaf. apply (Hcl 1 OFirst). apply xok_XB. apply (pres_b_new (xcur look fuel 0) xok (Hcl 0) lo hi). cbn [xok]. now apply HM.
-  - constructor; [|constructor]. unfold version_scan. apply xok_XM. apply (pres_m_new (xcur look fuel 1) xok (Hcl 1)).
+    unfold mem_leaf. apply (Hcl 1 OFirst). apply xok_XB. apply (pres_b_new (xcur fuel 0) xok (Hcl 0) lo hi). cbn [xok]. now apply HM.
+  - constructor; [|constructor]. unfold version_scan. apply xok_XM. apply (pres_m_new (xcur fuel 1) xok (Hcl 1)).
     assert (forall fs, (forall f, In f fs -> PF (f_id f)) -> Forall xok (map lazy_leaf fs)) as Hleaf.
     { intros fs Hfs. apply Forall_forall. intros k Hk. apply in_map_iff in Hk. destruct Hk as [f [<- Hf]].
       cbn [lazy_leaf xok]. now apply Hfs. }
@@ -112,12 +112,24 @@ Proof.
     + apply Hleaf. intros f Hf. apply HF. destruct v as [|l0 r]; [destruct Hf|]. cbn [hd] in Hf. cbn [concat]. apply in_or_app. now left.
     + apply Forall_forall. intros k Hk. apply in_flat_map in Hk. destruct Hk as [level [Hl Hk]].
       destruct (filter (overlaps lo hi) level) as [|f0 fs] eqn:E; [destruct Hk|]. destruct Hk as [<-|[]].
-      apply xok_XC. apply (pres_k_new (xcur look fuel 0) xok (Hcl 0)). apply Hleaf. intros f Hf. apply HF.
+      apply xok_XC. apply (pres_k_new (xcur fuel 0) xok (Hcl 0)). apply Hleaf. intros f Hf. apply HF.
       assert (In f level) as Hfl by (rewrite <- E in Hf; apply filter_In in Hf; tauto).
       destruct v as [|l0 r]; [destruct Hl|]. cbn [tl] in Hl. cbn [concat]. apply in_or_app. right.
       apply in_concat. exists level. split; assumption.
 Qed.
 End XOk.
+
+Lemma xok_refresh (PM PF : N -> Prop) look u : xok PM PF u -> xok PM PF (xrefresh look u).
+Proof.
+  revert u. fix IH 1. intros u H.
+  destruct u as [m0 p|f mk s|[fw kids]|[kids pos fl]|lo hi [cur pos fl]|t [cur sk fl]]; cbn [xok xrefresh] in *.
+  - exact H.
+  - exact H.
+  - induction kids as [|k r IHr]; [exact I|]. destruct H as [Hk Hr]. cbn [map]. split; [exact (IH k Hk)|exact (IHr Hr)].
+  - induction kids as [|k r IHr]; [exact I|]. destruct H as [Hk Hr]. cbn [map]. split; [exact (IH k Hk)|exact (IHr Hr)].
+  - exact (IH cur H).
+  - exact (IH cur H).
+Qed.
 
 Lemma xok_weaken (PM PF PM' PF' : N -> Prop) u :
   (forall m, PM m -> PM' m) -> (forall f, PF f -> PF' f) -> xok PM PF u -> xok PM' PF' u.
@@ -1138,9 +1150,11 @@ Proof.
   assert (cur_levels s2 = v_levels vo) as Hlv.
   { unfold cur_levels. rewrite E3. rewrite (find_ver_nodup s2 (ms_cur s) vo); [reflexivity| | |exact Hvid]; rewrite E1; [apply (b_nodup _ _ IV1)|exact Hvo]. }
   rewrite Hlv.
-  set (fuel := open_fuel s2). set (x := scan_new (look_of s2) fuel lo hi (ms_vis s) mems (v_levels vo)).
+  set (x := scan_new (cf_fuel c) lo hi (ms_vis s) (map (fun m => (m, look_of s2 m)) mems) (v_levels vo)).
   assert (xok (fun m => In m mems) (fun f => In f (v_files vo)) x) as Hx.
-  { apply xok_scan_new; [auto|]. intros f Hf. unfold v_files. now apply in_map. }
+  { apply xok_scan_new.
+    - intros m Hm. apply in_map_iff in Hm. destruct Hm as [m0 [<- Hm0]]. exact Hm0.
+    - intros f Hf. unfold v_files. now apply in_map. }
   assert (InvR s2) as IR2 by (eapply InvR_ext; [| | |exact IR1]; assumption).
   assert (forallb (openable s2) (opened_between (XM (mkM true [])) x) = true) as Hop.
   { eapply forallb_openable; [exact IR2|rewrite E1; exact Hvo|]. intros f Hf. eapply (opened_between_ok _ _ _ x Hx f Hf). }
@@ -1154,8 +1168,8 @@ Proof.
       as [G1 [G2 [G3 [G4 [G5 [G6 [G7 [G8 G9]]]]]]]] by (destruct Hs3 as [->| ->]; ms; repeat split; assumption).
     constructor.
     - pose proof (open_A s mems sc IA Hmems eq_refl) as HA.
-      eapply InvA_ext; [| | | | |exact HA]; ms; try reflexivity; try congruence; try (rewrite G5; lia).
-      rewrite G1, Emts, Hm1. reflexivity.
+      eapply InvA_ext; [| | | | |exact HA]; ms; try reflexivity; try congruence; try (rewrite G5; lia);
+        try (rewrite G1, Emts, Hm1; reflexivity).
     - assert (InvV (fun w => ind (N.eqb w (ms_cur s))) s3) as IV3.
       { eapply InvV_extra_ext; [|eapply InvV_ext'; [| | | |exact IV1]]; try assumption; [intros w; cbn; reflexivity|].
         change (ms_next s1) with (ms_next s). rewrite G5. lia. }
@@ -1164,4 +1178,204 @@ Proof.
     - ms. rewrite G2, map_app. cbn [map sc_id sc]. apply NoDup_app_snoc; [exact IS|now apply find_scan_none_notin]. }
   destruct (cf_cache c); apply Hfin; auto.
 Qed.
+
+(* ---- a call on a held cursor *)
+Definition same_shape (a b : scan) : Prop :=
+  sc_id a = sc_id b /\ sc_mems a = sc_mems b /\ sc_ver a = sc_ver b /\ sc_holds a = sc_holds b.
+
+Lemma shape_mem_cnt l l' m : Forall2 same_shape l' l -> mem_cnt l' m = mem_cnt l m.
+Proof. induction 1 as [|a b l' l [_ [H _]] _ IH]; [reflexivity|]. cbn [mem_cnt]. now rewrite H, IH. Qed.
+Lemma shape_ver_cnt l l' v : Forall2 same_shape l' l ->
+  length (filter (fun sc => N.eqb (sc_ver sc) v && sc_holds sc) l') = length (filter (fun sc => N.eqb (sc_ver sc) v && sc_holds sc) l).
+Proof.
+  induction 1 as [|a b l' l [_ [_ [H1 H2]]] _ IH]; [reflexivity|]. cbn [filter]. rewrite H1, H2.
+  destruct (N.eqb (sc_ver b) v && sc_holds b); cbn [length]; now rewrite IH.
+Qed.
+Lemma shape_ids l l' : Forall2 same_shape l' l -> map sc_id l' = map sc_id l.
+Proof. induction 1 as [|a b l' l [H _] _ IH]; [reflexivity|]. cbn [map]. now rewrite H, IH. Qed.
+
+Lemma nodup_scan_unique l (a b : scan) : NoDup (map sc_id l) -> In a l -> In b l -> sc_id a = sc_id b -> a = b.
+Proof.
+  induction l as [|w r IH]; [intros _ []|]. cbn [map]. intros Hnd. inversion Hnd; subst. intros [->|Hx] [->|Hy] Hid; auto.
+  - exfalso. apply H1. rewrite Hid. now apply in_map.
+  - exfalso. apply H1. rewrite <- Hid. now apply in_map.
+Qed.
+
+Lemma put_scan_shape s cid sc x' : NoDup (map sc_id (ms_scans s)) -> In sc (ms_scans s) -> sc_id sc = cid ->
+  Forall2 same_shape (ms_scans (put_scan cid sc x' s)) (ms_scans s) /\
+  (forall y', In y' (ms_scans (put_scan cid sc x' s)) ->
+     In y' (ms_scans s) \/ y' = mkScan cid (sc_t sc) (sc_mems sc) (sc_ver sc) (sc_holds sc) x').
+Proof.
+  intros Hnd Hsc Hid. unfold put_scan. ms. split.
+  - assert (forall l, (forall y, In y l -> In y (ms_scans s)) ->
+              Forall2 same_shape (map (fun y => if N.eqb (sc_id y) cid then mkScan cid (sc_t sc) (sc_mems sc) (sc_ver sc) (sc_holds sc) x' else y) l) l) as H.
+    { induction l as [|y l IH]; intros Hl; cbn [map]; constructor; [|apply IH; intros z Hz; apply Hl; now right].
+      destruct (N.eqb (sc_id y) cid) eqn:E; [|repeat split].
+      apply N.eqb_eq in E. assert (y = sc) as -> by (apply (nodup_scan_unique _ _ _ Hnd); [apply Hl; now left|exact Hsc|congruence]).
+      repeat split. cbn. congruence. }
+    apply H. auto.
+  - intros y' Hy'. apply in_map_iff in Hy'. destruct Hy' as [y [<- Hy]]. destruct (N.eqb (sc_id y) cid); auto.
+Qed.
+
+Lemma step_step s cid o : Inv s -> Inv (fst (mstep c s (EStep cid o))) /\ safe_out (snd (mstep c s (EStep cid o))).
+Proof.
+  intros [IA IV IR IS]. cbn [mstep]. destruct (find_scan s cid) as [sc|] eqn:Efs.
+  2:{ cbn [fst snd]. split; [constructor; assumption|split; discriminate]. }
+  apply find_scan_in in Efs. destruct Efs as [Hsc Hid].
+  destruct (b_sc _ _ IV sc Hsc) as [Hh [vo [Hvo [Hvid Hx]]]].
+  unfold do_step. cbv zeta.
+  assert (freed_any s (xmems (sc_x sc)) = false) as Hfa.
+  { apply existsb_false. intros m Hm. pose proof (xok_mems _ _ _ Hx m Hm) as Hin. cbn beta in Hin.
+    destruct (scan_mem_alive s sc m IA Hsc Hin) as [y [-> Hf]]. exact Hf. }
+  rewrite Hfa.
+  set (x' := scan_step (cf_fuel c) o (xrefresh (look_of s) (sc_x sc))).
+  assert (xok (fun m => In m (sc_mems sc)) (fun f => In f (v_files vo)) x') as Hx' by (apply xcur_closed; apply xok_refresh; exact Hx).
+  assert (forallb (openable s) (opened_between (sc_x sc) x') = true) as Hop.
+  { eapply forallb_openable; [exact IR|exact Hvo|]. intros f Hf. eapply (opened_between_ok _ _ _ x' Hx' f Hf). }
+  rewrite Hop. cbn [negb fst snd]. split; [|split; discriminate].
+  assert (forall s3, ms_mts s3 = ms_mts s -> ms_scans s3 = ms_scans s -> ms_mem s3 = ms_mem s -> ms_imm s3 = ms_imm s -> ms_next s3 = ms_next s ->
+            ms_vers s3 = ms_vers s -> ms_cur s3 = ms_cur s -> ms_refs s3 = ms_refs s -> ms_disk s3 = ms_disk s -> Inv (put_scan cid sc x' s3)) as Hfin.
+  { intros s3 G1 G2 G3 G4 G5 G6 G7 G8 G9.
+    destruct (put_scan_shape s3 cid sc x') as [Hshape Hmem]; [rewrite G2; exact IS|rewrite G2; exact Hsc|exact Hid|].
+    rewrite G2 in Hshape. unfold put_scan in *. ms.
+    constructor.
+    - constructor; ms; rewrite ?G1, ?G3, ?G4, ?G5; try apply IA.
+      + intros y Hy. rewrite (shape_mem_cnt _ _ _ Hshape). now apply (a_iters _ IA).
+      + intros sc' Hsc' m Hm. destruct (Hmem sc' Hsc') as [H| ->]; [rewrite G2 in H; now apply (a_sc _ IA sc')|].
+        cbn [sc_mems] in Hm. now apply (a_sc _ IA sc).
+    - constructor; ms; rewrite ?G5, ?G6, ?G7; try apply IV.
+      + intros w Hw. unfold ver_cnt. ms. rewrite (shape_ver_cnt _ _ _ Hshape). apply (b_arc _ _ IV w Hw).
+      + intros sc' Hsc'. destruct (Hmem sc' Hsc') as [H| ->]; [rewrite G2 in H; now apply (b_sc _ _ IV sc')|].
+        cbn [sc_holds sc_ver sc_mems sc_x]. split; [exact Hh|]. exists vo. auto.
+    - eapply InvR_ext; [| | |exact IR]; ms; assumption.
+    - ms. rewrite (shape_ids _ _ Hshape). exact IS. }
+  destruct (cf_cache c); apply Hfin; reflexivity.
+Qed.
+
+(* ---- dropping a cursor *)
+Lemma close_A s sc cid : InvA s -> In sc (ms_scans s) -> sc_id sc = cid ->
+  InvA (set_mts (set_scans s (filter (fun y => negb (N.eqb (sc_id y) cid)) (ms_scans s)))
+                (map (fun y => Nat.iter (cnt (mt_id y) (sc_mems sc)) (mt_drop_iter c) y) (ms_mts s))).
+Proof.
+  intros I Hsc Hid.
+  assert (forall y, mt_id (Nat.iter (cnt (mt_id y) (sc_mems sc)) (mt_drop_iter c) y) = mt_id y) as Hidk
+    by (intros y; apply (iter_drop_iter c _ y Hio)).
+  constructor; ms.
+  - intros y Hy. apply in_map_iff in Hy. destruct Hy as [y0 [<- Hy]]. rewrite Hidk. now apply (a_fresh _ I).
+  - intros y Hy Hf. apply in_map_iff in Hy. destruct Hy as [y0 [<- Hy]].
+    destruct (iter_drop_iter c (cnt (mt_id y0) (sc_mems sc)) y0 Hio) as [_ [E2 [E3 [_ E5]]]]. cbn zeta in *.
+    rewrite E2, E3. destruct (E5 Hf) as [H|[H1 H2]]; [destruct (a_freed _ I y0 Hy H); split; lia|rewrite E3 in H2; auto].
+  - intros y Hy. apply in_map_iff in Hy. destruct Hy as [y0 [<- Hy]].
+    destruct (iter_drop_iter c (cnt (mt_id y0) (sc_mems sc)) y0 Hio) as [E1 [_ [E3 _]]]. cbn zeta in *. rewrite E1, E3.
+    assert (negb (N.eqb (sc_id sc) cid) = false) as Hp by (rewrite Hid, N.eqb_refl; reflexivity).
+    pose proof (mem_cnt_remove (fun y => negb (N.eqb (sc_id y) cid)) (ms_scans s) sc (mt_id y0) Hsc Hp) as Hr.
+    pose proof (a_iters _ I y0 Hy). lia.
+  - intros y Hy Hc. apply in_map_iff in Hy. destruct Hy as [y0 [<- Hy]].
+    destruct (iter_drop_iter c (cnt (mt_id y0) (sc_mems sc)) y0 Hio) as [E1 [E2 _]]. cbn zeta in *. rewrite E1 in Hc. rewrite E2. now apply (a_cur _ I).
+  - destruct (a_mem _ I) as [y [Hy Hym]]. exists (Nat.iter (cnt (mt_id y) (sc_mems sc)) (mt_drop_iter c) y). split; [apply in_map_iff; eauto|now rewrite Hidk].
+  - intros m Hmi. destruct (a_imm _ I m Hmi) as [[y [Hy Hym]] Hne]. split; [|exact Hne].
+    exists (Nat.iter (cnt (mt_id y) (sc_mems sc)) (mt_drop_iter c) y). split; [apply in_map_iff; eauto|now rewrite Hidk].
+  - intros sc' Hsc' m Hm. apply filter_In in Hsc'. destruct Hsc' as [Hsc' _]. destruct (a_sc _ I sc' Hsc' m Hm) as [y [Hy Hym]].
+    exists (Nat.iter (cnt (mt_id y) (sc_mems sc)) (mt_drop_iter c) y). split; [apply in_map_iff; eauto|now rewrite Hidk].
+Qed.
+
+Lemma remove_scan_V s sc cid : InvV (fun _ => 0) s -> In sc (ms_scans s) -> sc_id sc = cid ->
+  InvV (fun w => ind (N.eqb w (sc_ver sc))) (set_scans s (filter (fun y => negb (N.eqb (sc_id y) cid)) (ms_scans s))).
+Proof.
+  intros I Hsc Hid. destruct (b_sc _ _ I sc Hsc) as [Hh _]. constructor; ms; try apply I.
+  - intros w Hw. pose proof (b_arc _ _ I w Hw) as Ha. unfold ver_cnt in *. ms.
+    assert (length (filter (fun sc0 => N.eqb (sc_ver sc0) (v_id w) && sc_holds sc0) (filter (fun y => negb (N.eqb (sc_id y) cid)) (ms_scans s))) +
+            ind (N.eqb (v_id w) (sc_ver sc)) <= length (filter (fun sc0 => N.eqb (sc_ver sc0) (v_id w) && sc_holds sc0) (ms_scans s))); [|lia].
+    clear Ha. induction (ms_scans s) as [|a r IH]; [destruct Hsc|]. destruct Hsc as [->|Hin].
+    + cbn [filter]. rewrite Hid, N.eqb_refl. cbn [negb]. rewrite Hh, andb_true_r, (N.eqb_sym (sc_ver sc) (v_id w)).
+      assert (forall l, length (filter (fun sc0 => N.eqb (sc_ver sc0) (v_id w) && sc_holds sc0) (filter (fun y => negb (N.eqb (sc_id y) cid)) l)) <=
+                        length (filter (fun sc0 => N.eqb (sc_ver sc0) (v_id w) && sc_holds sc0) l)) as Hle.
+      { induction l as [|b l IHl]; [cbn; lia|]. cbn [filter]. destruct (negb (N.eqb (sc_id b) cid)); cbn [filter];
+          destruct (N.eqb (sc_ver b) (v_id w) && sc_holds b); cbn [length]; lia. }
+      specialize (Hle r). destruct (N.eqb (v_id w) (sc_ver sc)); cbn [length ind]; lia.
+    + specialize (IH Hin). cbn [filter]. destruct (negb (N.eqb (sc_id a) cid)); cbn [filter];
+        destruct (N.eqb (sc_ver a) (v_id w) && sc_holds a); cbn [length]; lia.
+  - intros sc' Hsc'. apply filter_In in Hsc'. destruct Hsc' as [Hsc' _]. now apply (b_sc _ _ I).
+Qed.
+
+Lemma step_close s cid : Inv s -> Inv (fst (mstep c s (EClose cid))) /\ safe_out (snd (mstep c s (EClose cid))).
+Proof.
+  intros [IA IV IR IS]. cbn [mstep]. destruct (find_scan s cid) as [sc|] eqn:Efs; cbn [fst snd].
+  2:{ split; [constructor; assumption|split; discriminate]. }
+  split; [|split; discriminate].
+  apply find_scan_in in Efs. destruct Efs as [Hsc Hid].
+  destruct (b_sc _ _ IV sc Hsc) as [Hh _].
+  unfold do_close. cbv zeta. rewrite Hh.
+  set (s1 := set_scans s (filter (fun y => negb (N.eqb (sc_id y) cid)) (ms_scans s))).
+  destruct (fold_upd_mt (mt_drop_iter c) (fun y => proj1 (iter_drop_iter c 1 y Hio)) (sc_mems sc) s1) as [Emts Es2]. cbn zeta in Emts, Es2.
+  set (s2 := fold_left (fun s m => upd_mt (mt_drop_iter c) m s) (sc_mems sc) s1) in *.
+  assert (ms_vers s2 = ms_vers s /\ ms_scans s2 = ms_scans s1 /\ ms_cur s2 = ms_cur s /\ ms_next s2 = ms_next s /\ ms_refs s2 = ms_refs s /\
+          ms_disk s2 = ms_disk s /\ ms_mem s2 = ms_mem s /\ ms_imm s2 = ms_imm s) as [E1 [E2 [E3 [E4 [E5 [E6 [E7 E8]]]]]]]
+    by (rewrite Es2; repeat split).
+  assert (InvA s2) as IA2.
+  { pose proof (close_A s sc cid IA Hsc Hid) as HA. eapply InvA_ext; [| | | | |exact HA]; ms; try assumption; try (rewrite E4; lia);
+      try (rewrite Emts; reflexivity). }
+  assert (InvV (fun w => ind (N.eqb w (sc_ver sc))) s2) as IV2.
+  { pose proof (remove_scan_V s sc cid IV Hsc Hid) as HV. eapply InvV_ext'; [| | | |exact HV]; ms; try assumption; try (rewrite E4; lia). }
+  assert (InvR s2) as IR2 by (eapply InvR_ext; [| | |exact IR]; assumption).
+  destruct (vref_drop_frame (sc_ver sc) s2) as [[F1 [F2 [F3 [F4 [F5 [F6 F7]]]]]] N1].
+  constructor.
+  - eapply InvA_ext; [| | | | |exact IA2]; try assumption. rewrite N1. lia.
+  - eapply InvV_extra_ext; [|apply (vref_drop_V _ s2 (sc_ver sc) IV2 IR2)].
+    + intros w. cbn beta. destruct (N.eqb w (sc_ver sc)); cbn [ind]; lia.
+    + rewrite N.eqb_refl. cbn. lia.
+  - apply (vref_drop_R _ s2 (sc_ver sc) IV2 IR2). rewrite N.eqb_refl. cbn. lia.
+  - rewrite F7, E2. unfold s1. ms. now apply NoDup_filter_map.
+Qed.
+
+Theorem step_inv s e : Inv s -> Inv (fst (mstep c s e)) /\ safe_out (snd (mstep c s e)).
+Proof.
+  intros I. destruct e.
+  - now apply step_write.
+  - now apply step_rollover.
+  - now apply step_flushdone.
+  - now apply step_install.
+  - now apply step_unlink.
+  - now apply step_evict.
+  - now apply step_open.
+  - now apply step_step.
+  - now apply step_close.
+Qed.
+
+Theorem run_safe : forall es s, Inv s -> Forall safe_out (snd (mrun c s es)) /\ Inv (fst (mrun c s es)).
+Proof.
+  induction es as [|e es IH]; intros s I; cbn [mrun]; [split; [constructor|exact I]|].
+  destruct (step_inv s e I) as [I' Hs]. destruct (mstep c s e) as [s' o] eqn:E. cbn [fst snd] in *.
+  destruct o as [|ob|er].
+  - destruct (IH s' I') as [H1 H2]. destruct (mrun c s' es) as [s'' os]. cbn [fst snd] in *. split; [constructor; assumption|exact H2].
+  - destruct (IH s' I') as [H1 H2]. destruct (mrun c s' es) as [s'' os]. cbn [fst snd] in *. split; [constructor; assumption|exact H2].
+  - cbn [fst snd]. split; [constructor; [exact Hs|constructor]|exact I'].
+Qed.
 End Steps.
+
+Lemma concat_repeat_nil {A} n : concat (repeat (@nil A) n) = [].
+Proof. induction n as [|k IH]; [reflexivity|]. cbn [repeat concat app]. exact IH. Qed.
+
+Lemma init_inv seq : Inv (minit seq).
+Proof.
+  unfold minit. constructor.
+  - constructor; ms.
+    + intros y [<-|[]]. cbn. lia.
+    + intros y [<-|[]]. discriminate.
+    + intros y [<-|[]]. cbn. lia.
+    + intros y [<-|[]] _. cbn. lia.
+    + eexists. split; [now left|reflexivity].
+    + discriminate.
+    + intros sc [].
+  - constructor; ms.
+    + cbn. constructor; [intros []|constructor].
+    + intros v [<-|[]]. cbn. lia.
+    + intros v [<-|[]]. cbn. lia.
+    + eexists. split; [now left|reflexivity].
+    + intros sc [].
+  - constructor; ms.
+    + constructor.
+    + intros f. cbn [file_cnt]. unfold v_files. cbn [v_levels]. rewrite concat_repeat_nil. cbn. lia.
+    + intros f Hf. cbn in Hf. lia.
+  - ms. constructor.
+Qed.
